@@ -4,12 +4,18 @@ export GOFLAGS=-mod=mod GOPROXY=off GOSUMDB=off GOTOOLCHAIN=local
 cd /repo
 fail=0
 for t in /verif/replay/*.go.tmpl; do
+  case "$t" in *.demo.go.tmpl) continue;; esac
   pkg=$(grep -m1 '^package ' "$t" | awk '{print $2}')
   base=$(basename "$t" .go.tmpl)
   rel=$(echo "$base" | sed 's/\..*//; s/_/\//g'); [ "$rel" = martian ] && rel=.
   [ -d "$rel" ] || { echo "SKIP $base (dir $rel)"; continue; }
   ov=$(mktemp /tmp/ov-XXXXXX.json)
-  echo "{\"Replace\": {\"/repo/$rel/zz_govc_replay_test.go\": \"$t\"}}" | sed 's|/repo/\./|/repo/|' > "$ov"
+  demo="${t%.go.tmpl}.demo.go.tmpl"
+  if [ -f "$demo" ]; then
+    echo "{\"Replace\": {\"/repo/$rel/zz_govc_replay_test.go\": \"$t\", \"/repo/$rel/zz_govc_demo_test.go\": \"$demo\"}}" | sed 's|/repo/\./|/repo/|g' > "$ov"
+  else
+    echo "{\"Replace\": {\"/repo/$rel/zz_govc_replay_test.go\": \"$t\"}}" | sed 's|/repo/\./|/repo/|' > "$ov"
+  fi
   flags=$(grep -m1 '^// govc-flags:' "$t" | sed 's|// govc-flags:||')
   out=$(GOVC_MODEL=/nonexistent GOVC_OBLIGATION= go test -overlay "$ov" -vet=off -count=1 -timeout 120s $flags -run '^TestGovcReplay$' ./$rel 2>&1)
   rm -f "$ov"
